@@ -1,7 +1,7 @@
 (* C14 - Movement and mart lists are expanded, ordered and terminated exactly once. *)
 From Coq Require Import List String ZArith NArith.
 Open Scope string_scope.
-From Pory Require Import Lexer Ast Parser Emitter Props1 C14Proofs TopProps.
+From Pory Require Import Lexer Ast Parser Emitter Props1 C14Proofs TopProps Tables TablesOK.
 Import ListNotations.
 
 Theorem steps_out_spec : forall steps,
@@ -47,3 +47,8 @@ Theorem mart_shape : forall name glob tk items itoks,
     ILine (tab ++ t ".align 2") :: ILabel name glob :: emit_items None items itoks ++ [ILine (tab ++ t ".2byte ITEM_NONE")].
 Proof. exact TopProps.emit_mart_shape. Qed.
 Print Assumptions mart_shape.
+
+(* the bounds are those written in parser/parser.go (regenerated from /repo on every run) *)
+Theorem multiplier_bounds_are_the_go_constants : go_multiplier_min_rejected = 0%Z /\ go_multiplier_max = 9999%Z.
+Proof. exact multiplier_bounds_agree. Qed.
+Print Assumptions multiplier_bounds_are_the_go_constants.
